@@ -226,3 +226,22 @@ def c05_sources_and_partial_round(case, v=None):
             if F[n]["kind"] == "derived" and not S.is_complex(sp, n) and (S.basic_roots(sp, n) - set(cr)):
                 return True
     return False
+
+
+# C25 -----------------------------------------------------------------------------------------------
+def nest_inner_partial_chunk(case, v=None):
+    """A Nest whose inner block ends in a partial crossing chunk (its trial count, e.g. through MinimumTrials, is
+    not a multiple of crossing size x crossing weight): the library keeps cutting the inner crossing's chunks
+    continuously through the whole sequence instead of restarting them with every inner run."""
+    sp = _spec(case)
+    tree = sp["block"]
+    if tree["op"] != "nest":
+        return False
+    inner = {"factors": sp["factors"], "order": sp["order"], "block": tree["inner"]}
+    try:
+        fi = ref.analyze(inner)
+    except Exception:
+        return False
+    if fi.T is None or not fi.crossings:
+        return False
+    return any((fi.T - c["q"]) % (c["S"] * c["cw"]) != 0 for c in fi.crossings)
